@@ -35,6 +35,8 @@ type COp struct {
 	WKey  B      `json:"wk,omitempty"`
 	WVal  string `json:"wv,omitempty"`
 	WDel  bool   `json:"wd,omitempty"`
+	// iterw: after the interleaved write a second iterator is created and drained while the first is still open
+	Second bool `json:"second,omitempty"`
 }
 
 type CProg struct {
@@ -91,8 +93,15 @@ func GenCProg(r *sim.Rand) CProg {
 			if r.Bool() {
 				o.Op = "riterw"
 			}
+			o.Second = r.Chance(40)
+			if r.Chance(30) && o.Start == nil {
+				o.WKey = B(cAlpha[r.Intn(3)]) // early keys: likely the one the iterator stands on
+			}
 		case x < 91:
 			o = COp{Op: "write"}
+			if r.Chance(15) {
+				o = COp{Op: "getnil"}
+			}
 		case x < 96:
 			if depth < 4 {
 				o = COp{Op: "wrap"}
@@ -217,6 +226,8 @@ func eqPairs(a, b [][2]string) bool {
 	return true
 }
 
+var blockedSeen int32 // set once a wrapper was found blocked after a panicking call
+
 // RunCProg executes one program; every result is compared with the model.
 func RunCProg(p *CProg, rep Reporter) {
 	base, _ := newBase(p.Parent, p.Init)
@@ -240,13 +251,40 @@ func RunCProg(p *CProg, rep Reporter) {
 		}
 	}
 	justWritten := false // no call at all was made on the top wrapper since its Write
+	blocked := false
 	for i, o := range p.Ops {
+		if blocked {
+			return
+		}
 		top := len(stores) - 1
 		st, mv := stores[top], views[top]
 		jw := justWritten
 		justWritten = false
 		perr := safely(func() {
 			switch o.Op {
+			case "getnil":
+				// a call that panics inside the wrapper (nil key) must leave it usable
+				if atomic.LoadInt32(&blockedSeen) != 0 {
+					return // already reported by this process: do not wait for the watchdog again and again
+				}
+				if p1 := safely(func() { st.Get(nil) }); p1 == nil {
+					return // nil keys accepted: nothing to check here
+				}
+				done := make(chan struct{})
+				go func() {
+					defer close(done)
+					safely(func() { st.Has(nil) })
+					safely(func() { st.Has([]byte("a")) })
+					safely(func() { st.Get([]byte("a")) })
+				}()
+				select {
+				case <-done:
+					rep.Count("c15.seq.calls_after_a_panicking_call", 1)
+				case <-time.After(10 * time.Second):
+					bad(i, o, "wrapper-blocked-after-panic", "after Get(nil) panicked, the next Has/Get on the same wrapper did not return within 10 s (lock never released)")
+					blocked = true
+					atomic.StoreInt32(&blockedSeen, 1)
+				}
 			case "pmod":
 				if !jw || top == 0 {
 					return
@@ -316,6 +354,14 @@ func RunCProg(p *CProg, rep Reporter) {
 						} else {
 							st.Set([]byte(o.WKey), []byte(o.WVal))
 							mv[string(o.WKey)] = o.WVal
+						}
+						if o.Second {
+							// an iterator created now sees exactly the current view, whatever else is open
+							g2 := drain(st.Iterator(nil, nil))
+							if w2 := mv.rng(nil, nil, true); !eqPairs(g2, w2) {
+								bad(i, o, "second-iterator-mismatch", fmt.Sprintf("an iterator created while another is open yields %q, model %q", g2, w2))
+							}
+							rep.Count("c15.seq.second_iterators_while_open", 1)
 						}
 					}
 					got = append(got, [2]string{string(it.Key()), string(it.Value())})
@@ -670,6 +716,20 @@ type traceRec struct {
 	Operation string `json:"operation"`
 	Key       string `json:"key"`
 	Value     string `json:"value"`
+	Meta      string `json:"-"` // metadata rendered as sorted key=value pairs
+}
+
+func renderMeta(m map[string]interface{}) string {
+	var ks []string
+	for k := range m {
+		ks = append(ks, k)
+	}
+	sort.Strings(ks)
+	out := ""
+	for _, k := range ks {
+		out += fmt.Sprintf("%s=%v;", k, m[k])
+	}
+	return out
 }
 
 // RunCMTrace: a rootmulti store with a tracer set hands out cache multistores (one or two levels) whose stores — IAVL
@@ -692,6 +752,7 @@ func RunCMTrace(p *CMProg, rep Reporter) {
 		}
 		return in.keys[i]
 	}
+	lastTx := ""
 	for ri, ops := range p.Rounds {
 		cms := in.rs.CacheMultiStore()
 		target := cms
@@ -699,6 +760,19 @@ func RunCMTrace(p *CMProg, rep Reporter) {
 		if p.Nested[ri] {
 			target = cms.CacheMultiStore()
 			levels = 2
+		}
+		// the context of the unit of work is attached after the wrappers exist (baseapp: block height per block on the
+		// root store, transaction hash per transaction on the cache multistore); every later line carries it
+		// (SetTracingContext merges by key into the context shared by the root store and all its wrappers, so an entry
+		// stays until it is overwritten)
+		if ri%2 == 1 {
+			lastTx = fmt.Sprintf("TX%d", ri)
+			target.SetTracingContext(stypes.TraceContext(map[string]interface{}{"txHash": lastTx}))
+			rep.Count("c16.cmtrace.context_set_after_wrapping", 1)
+		}
+		wantMeta := "blockHeight=7;"
+		if lastTx != "" {
+			wantMeta += "txHash=" + lastTx + ";"
 		}
 		// dirty sets per store: last operation per key
 		type last struct {
@@ -739,10 +813,14 @@ func RunCMTrace(p *CMProg, rep Reporter) {
 				continue
 			}
 			var tr traceRec
-			if json.Unmarshal(line, &tr) != nil {
+			var md struct {
+				Metadata map[string]interface{} `json:"metadata"`
+			}
+			if json.Unmarshal(line, &tr) != nil || json.Unmarshal(line, &md) != nil {
 				rep.Violate("C16", "cmtrace-unparsable-line", fmt.Sprintf("trace line %q is not a JSON record", line))
 				continue
 			}
+			tr.Meta = renderMeta(md.Metadata)
 			if tr.Operation != "write" && tr.Operation != "delete" {
 				continue
 			}
@@ -764,9 +842,9 @@ func RunCMTrace(p *CMProg, rep Reporter) {
 			for l := 0; l < levels; l++ {
 				for _, k := range keys {
 					if d[k].del {
-						want = append(want, traceRec{Operation: "delete", Key: k})
+						want = append(want, traceRec{Operation: "delete", Key: k, Meta: wantMeta})
 					} else {
-						want = append(want, traceRec{Operation: "write", Key: k, Value: d[k].val})
+						want = append(want, traceRec{Operation: "write", Key: k, Value: d[k].val, Meta: wantMeta})
 					}
 				}
 			}
